@@ -35,6 +35,9 @@ type AckScenario struct {
 	Calls  []AckCall `json:"calls"`
 	Script []AckStep `json:"script"`
 	// second phase: started after Script has been played and the abandoned calls of phase one have returned
+	// Prompt: the broker answers every request by itself, and the transport's Write returns only after the client's
+	// reader has consumed the answer (the acknowledgement is dispatched before the caller gets to wait for it)
+	Prompt  bool          `json:"prompt,omitempty"`
 	Calls2  []AckCall     `json:"calls2,omitempty"`
 	Script2 []AckStep     `json:"script2,omitempty"`
 	Batch   []AckScenario `json:"batch,omitempty"`
@@ -71,7 +74,8 @@ var ackFirst = map[string]byte{"PUBACK": 0x40, "PUBREC": 0x50, "PUBCOMP": 0x70, 
 func runAcks(sc *AckScenario) *AckResult {
 	res := &AckResult{ID: sc.ID, Calls: sc.Calls, Evs: []map[string]interface{}{}}
 	w := netsim.NewWorld(netsim.Plan{})
-	w.ManualAcks = true
+	w.ManualAcks = !sc.Prompt
+	w.PromptAcks = sc.Prompt
 	rec := w.Rec
 	ctx, cancel := context.WithTimeout(context.Background(), 6*time.Second)
 	defer cancel()
